@@ -308,5 +308,19 @@ def main(argv=None):
     return report.finish(prop, tier, seed, R, outs, t0, update_baseline=args.update_baseline, skipped=EARLY_STOP["skipped"], bounded=bounded)
 
 
+def _main_with_scratch():
+    """every temporary file of a run (solver inputs, harness scratch directories) lives in one directory that is removed at the end,
+    also when worker processes were stopped early"""
+    import shutil
+    import tempfile
+    work = tempfile.mkdtemp(prefix="verif_run_")
+    os.environ["TMPDIR"] = work
+    tempfile.tempdir = work
+    try:
+        return main()
+    finally:
+        shutil.rmtree(work, ignore_errors=True)
+
+
 if __name__ == "__main__":
-    sys.exit(main())
+    sys.exit(_main_with_scratch())
